@@ -10,7 +10,7 @@ LEVEL_TEXT = (
     "Static clause check: R1 dispatch rows (0x05/0x15 -> increment, 0x06/0x16 -> decrement) and the bool that selects "
     "the + resp. the saturating - computation (decided on the public increment/decrement with their shared helper inlined); R2 arithmetic shape (the increment must be computed by "
     "an operation that cannot trap: an overflow-checked + on two client-controlled u64 is a violation; decrement: "
-    "delta > value -> 0, otherwise value - delta); R3 what is stored and returned (record.value <- to_string(result), "
+    "delta > value -> 0, otherwise value - delta); R3 what is stored and returned, on every successful existing-key path (exactly one store; record.value <- to_string(result), "
     "DeltaResult.value <- the same result, the stored header is the fetched one with only cas taken from the request: the "
     "item's flags are kept); R4 creation rule over {hit,miss} x {expiration = 0xffffffff, other}; R5 non-numeric values "
     "give ArithOnNonNumeric and reach no store write; R6 wire layout of the 20-byte extras and the handler's "
@@ -66,14 +66,14 @@ def r1(ctx):
     for op, (variant, meth) in rows.items():
         somes, _t = decoded_variant(ctx, op)
         rep.check(somes == [variant], "decode:%#04x" % op, "%#04x decodes to %s" % (op, variant), "opcode %#04x decodes to %s, the protocol says %s" % (op, somes, variant), safe_loc(f, CODEC + "::parse_request"))
-        hm = handler_method_of(ctx, variant)
-        rep.check(hm == {meth}, "handle:%s" % variant, "%s handled by BinaryHandler::%s" % (variant, meth), "request variant %s is handled by %s, expected BinaryHandler::%s" % (variant, sorted(hm or []), meth), safe_loc(f, HANDLER + "::handle_request"))
+        hm = dispatch.store_methods_of_variant(ctx, variant)
+        rep.check(hm == {meth}, "handle:%s" % variant, "%s is dispatched to MemcStore::%s" % (variant, meth), "request variant %s reaches MemcStore::%s, expected MemcStore::%s only" % (variant, sorted(hm or []), meth), safe_loc(f, HANDLER + "::handle_request"))
     for meth, flag in (("increment", 1), ("decrement", 0)):
-        hb = f.one(HANDLER + "::" + meth)
         argn = "inc_request" if meth == "increment" else "dec_request"
+        hb, hargs = dispatch.handler_body_args(ctx, meth, argn)
         I = Interp(f, policy=lambda body, args: "opaque" if body.path.startswith(MEMC + "::") else "inline")
         called = set()
-        for p in I.run(hb, [P("self"), P(argn), P("response_header")]):
+        for p in I.run(hb, hargs):
             for e in p.events:
                 if e.kind == "call" and e.name.startswith(MEMC + "::"):
                     called.add(e.name.split("::")[-1])
@@ -200,10 +200,21 @@ def r3(ctx):
         b, paths = delta_paths(ctx, inc)
         nm = "incr" if inc else "decr"
         n = 0
+        res = OrderedDict()  # key -> (ok, what_ok, what_bad): every successful existing-key path must satisfy each clause
+
+        def clause(ok, key, what_ok, what_bad):
+            prev = res.get(key)
+            if prev is None or (prev[0] and not ok):
+                res[key] = (ok, what_ok, what_bad)
+
         for p in paths:
             oc, g = read_outcome(p)
             sets = [e for e in p.events if e.kind == "call" and e.name == CACHE + "::set"]
-            if oc != "hit" or len(sets) != 1 or variant_of(p.ret)[0] != "Ok":
+            if oc != "hit" or variant_of(p.ret)[0] != "Ok" or p.cut:
+                continue
+            # the command answers success on an existing numeric item: the new text has been stored, exactly once
+            clause(len(sets) == 1, "%s:success-stores-once" % nm, "a successful incr/decr on an existing item stores the result exactly once", "a successful incr/decr on an existing item performs %d stores (must be 1): the item does not hold the decimal text of the returned number afterwards" % len(sets))
+            if len(sets) != 1:
                 continue
             n += 1
             a = to_string_arg(p)
@@ -212,25 +223,26 @@ def r3(ctx):
             val = field_of(rec, "value")
             ts = [x for x in atoms(val) if isinstance(x, tuple) and x[0] == "call" and x[1].endswith("to_string")]
             val_ok = len(ts) >= 1 and any(tform(a) in x[3] for x in ts)
-            rep.check(val_ok, "%s:stored-value" % nm, "record.value <- Bytes::from(result.to_string())", "the stored counter value is %s, not the decimal text of the result" % short(val, 120), b.loc())
+            clause(val_ok, "%s:stored-value" % nm, "record.value <- Bytes::from(result.to_string())", "the stored counter value is %s, not the decimal text of the result" % short(val, 120))
             ret_val = field_of(variant_of(p.ret)[1], "value")
-            rep.check(tform(ret_val) == tform(a), "%s:returned-value" % nm, "DeltaResult.value <- the stored result", "the returned value %s is not the stored result %s" % (short(ret_val, 80), short(a, 80)), b.loc())
+            clause(tform(ret_val) == tform(a), "%s:returned-value" % nm, "DeltaResult.value <- the stored result", "the returned value %s is not the stored result %s" % (short(ret_val, 80), short(a, 80)))
             hdr = field_of(rec, "header")
             if isinstance(hdr, Struct):
                 hdr_ok = hdr.base == ("field", fetched, "header") and set(hdr.fields) <= {"cas"}
             else:
                 hdr_ok = hdr == ("field", fetched, "header")
-            rep.check(hdr_ok, "%s:header-kept" % nm, "stored header = fetched header (+ request cas)", "incr/decr replaces the stored item's header by %s: the item's flags become the request's opaque and its TTL the request's expiration (set k \"5\" flags=7; incr k opaque=0xABAD -> get k flags=0xABAD)" % short(hdr, 100), b.loc())
-            rep.check(isinstance(rec, Struct) and rec.base == fetched, "%s:record-is-fetched" % nm, "the fetched record is updated and stored", "incr/decr stores %s instead of the fetched record" % short(rec, 100), b.loc())
-            break
+            clause(hdr_ok, "%s:header-kept" % nm, "stored header = fetched header (+ request cas)", "incr/decr replaces the stored item's header by %s: the item's flags become the request's opaque and its TTL the request's expiration (set k \"5\" flags=7; incr k opaque=0xABAD -> get k flags=0xABAD)" % short(hdr, 100))
+            clause(isinstance(rec, Struct) and rec.base == fetched, "%s:record-is-fetched" % nm, "the fetched record is updated and stored", "incr/decr stores %s instead of the fetched record" % short(rec, 100))
+        for key, (ok, wo, wb) in res.items():
+            rep.check(ok, key, wo, wb, b.loc())
         if n == 0:
             rep.bad("%s:no-success-path" % nm, "cannot find the existing-key success path of the counter command", b.loc())
     # handler: response value <- delta_result.value
     for meth, argn in (("increment", "inc_request"), ("decrement", "dec_request")):
-        hb = f.one(HANDLER + "::" + meth)
+        hb, hargs = dispatch.handler_body_args(ctx, meth, argn)
         I = Interp(f, policy=lambda body, args: "opaque" if body.path.startswith(MEMC + "::") else "inline")
         ok = False
-        for p in I.run(hb, [P("self"), P(argn), P("response_header")]):
+        for p in I.run(hb, hargs):
             calls = [e for e in p.events if e.kind == "call" and e.name.startswith(MEMC + "::")]
             if len(calls) == 1 and d2(p, calls[0].result) == 0:
                 v = field_of(p.ret, "0", "value")
@@ -343,10 +355,10 @@ def r6(ctx):
                 why = "delta=%s initial=%s expiration=%s key=%s" % (short(d, 60), short(i, 60), short(e, 60), short(k, 80))
         rep.check(ok, "layout:%#04x" % op, "delta@0(8) initial@8(8) expiration@16(4) key@20", "incr/decr frame %#04x is decoded as %s" % (op, why), safe_loc(f, CODEC + "::parse_inc_dec_request"))
     for meth, argn in (("increment", "inc_request"), ("decrement", "dec_request")):
-        hb = f.one(HANDLER + "::" + meth)
+        hb, hargs = dispatch.handler_body_args(ctx, meth, argn)
         I = Interp(f, policy=lambda body, args: "opaque" if body.path.startswith(MEMC + "::") else "inline")
         ok = False
-        for p in I.run(hb, [P("self"), P(argn), P("response_header")]):
+        for p in I.run(hb, hargs):
             for e in p.events:
                 if e.kind == "call" and e.name.startswith(MEMC + "::"):
                     meta, key, dp = e.args[1], e.args[2], e.args[3]
